@@ -326,56 +326,79 @@ def run(ctx):
 
     ctx.progress('leg A done: %d replays' % replayed)
     # ---- leg B1: exhaustive small scope -----------------------------------------------------
+    # histories "position the cursor/buffer, then run one operation", every data string, every chunking
     alpha = [A, B, LF]
-    maxdata = ctx.pick(3, 4)
-    pool = op_pool([bytes([A]), bytes([A, B]), bytes([LF])], [-1, 0, 1, 2])
-    hl = 2
+    maxdata = ctx.pick(4, 5)
+    dl = [bytes([A]), bytes([A, B]), bytes([A, B, A]), bytes([LF])]
+    position = [None, ('read', 1), ('read', 2), ('read', 3), ('peek', 1), ('peek', -1), ('delimit', bytes([A, B]))]
+    target = []
+    for d in dl:
+        for n in (-1, 1, 2):
+            for c in (False, True):
+                target.append(('read_until', d, n, c))
+        target += [('pipe_until', d, False), ('pipe_until', d, True), ('delimit', d)]
+    target += [('read', -1), ('read', 0), ('read', 2), ('peek', 2), ('pipe',), ('exhaust',), ('iter',),
+               ('readline', -1), ('readline', 1), ('readline', 2), ('readlines', -1), ('readlines', 2), ('endsub',)]
+    hists = [([p] if p else []) + [t] for p in position for t in target]
     datas = [bytes(t) for n in range(0, maxdata + 1) for t in itertools.product(alpha, repeat=n)]
-    sync_pool = [o for o in pool if o[0] != 'iter']
-    async_pool = [o for o in pool if o[0] not in ('readline', 'readlines')]
+    every = ctx.pick(11, 1)
+    k = ctx.rng.randrange(every)
     for data in datas:
-        for cs in ctx.pick((1, 2), (1, 2, 3)):
-            for kind, ops, chs in (('sync', sync_pool, sync_chunkings(len(data), limit=ctx.pick(3, 6))),
-                                   ('async', async_pool, async_chunkings(len(data), 3))):
-                hists = [(o,) for o in ops] + [(o1, o2) for o1 in ops for o2 in ops
-                                               if o1[0] not in ('endsub',)]
-                if ctx.quick:
-                    hists = hists[:len(ops)] + hists[len(ops) + ctx.rng.randrange(8)::8]
+        for cs in (1, 2, 3):
+            for kind in ('sync', 'async'):
+                chs = sync_chunkings(len(data), limit=ctx.pick(3, 6)) if kind == 'sync' else \
+                    async_chunkings(len(data), 3)
                 for h in hists:
+                    k += 1
+                    if k % every:
+                        continue
+                    if kind == 'async' and h[-1][0] in ('readline', 'readlines'):
+                        continue
+                    if kind == 'sync' and h[-1][0] == 'iter':
+                        continue
                     for ch in chs:
-                        ml = len(data)
-                        record(kind, data, ml, cs, ch, list(h) + [('endsub',), ('read', -1)], 'exhaustive')
-    ctx.extra['exhaustive_scope'] = {'alphabet': alpha, 'max_data': maxdata, 'history_len': hl,
-                                     'datas': len(datas)}
+                        record(kind, data, len(data), cs, ch, list(h) + [('endsub',), ('read', -1)], 'exhaustive')
+    ctx.extra['exhaustive_scope'] = {'alphabet': alpha, 'max_data': maxdata, 'histories': len(hists),
+                                     'datas': len(datas), 'sampled_one_in': every}
+    ctx.exhaustive = every == 1
 
     ctx.progress('leg B1 done: %d executions, %d distinct traces' % (ctx.evaluations, len(seen)))
     # ---- leg B2: seeded random beyond the bound ---------------------------------------------
-    nrand = ctx.pick(12000, 400000)
+    # data is assembled from delimiter occurrences, delimiter prefixes/suffixes and filler, so that
+    # delimiters straddle source-chunk and buffer boundaries often
+    nrand = ctx.pick(36000, 600000)
     rng = ctx.rng
-    delims = [bytes([A]), bytes([A, B]), bytes([LF]), bytes([B, LF]), bytes([A, B, A])]
-    sizes = [-1, -1, 0, 1, 2, 3, 5, 8, 13]
+    all_delims = [bytes([A]), bytes([LF]), bytes([A, B]), bytes([B, LF]), bytes([A, B, A]), bytes([A, B, X]),
+                  bytes([A, A, B, LF])]
     for i in range(nrand):
         kind = 'sync' if i % 2 == 0 else 'async'
-        n = rng.randint(0, 48) if rng.random() < 0.3 else rng.randint(0, 12)
-        data = bytes(rng.choice((A, B, LF, X, A, B)) for _ in range(n))
         cs = rng.randint(1, 6)
+        cand = [d for d in all_delims if len(d) <= cs]
+        d0 = rng.choice(cand)
+        toks = [d0, d0[:-1], d0[1:], d0[:1], bytes([X]), bytes([X, X]), bytes([LF]), bytes([B]), d0 + d0]
+        data = b''
+        for _ in range(rng.randint(0, 10) if rng.random() < 0.8 else rng.randint(8, 24)):
+            data += rng.choice(toks)
+        data = data[:60]
+        sizes = [-1, -1, 0, 1, 2, 3, cs, cs + 1, 2 * cs, 2 * cs - 1, 5, 13]
         hist = []
         for _ in range(rng.randint(1, 8)):
             t = rng.random()
+            d = d0 if rng.random() < 0.8 else rng.choice(cand)
             if t < 0.22:
                 hist.append(('read', rng.choice(sizes)))
-            elif t < 0.36:
+            elif t < 0.34:
                 hist.append(('peek', rng.choice(sizes)))
             elif t < 0.62:
-                hist.append(('read_until', rng.choice(delims), rng.choice(sizes), rng.random() < 0.5))
+                hist.append(('read_until', d, rng.choice(sizes), rng.random() < 0.5))
             elif t < 0.70:
-                hist.append(('pipe_until', rng.choice(delims), rng.random() < 0.5))
+                hist.append(('pipe_until', d, rng.random() < 0.5))
             elif t < 0.78:
                 hist.append(('readline', rng.choice(sizes)) if kind == 'sync' else ('read', rng.choice(sizes)))
             elif t < 0.82:
                 hist.append(('readlines', rng.choice(sizes)) if kind == 'sync' else ('iter',))
             elif t < 0.90:
-                hist.append(('delimit', rng.choice(delims)))
+                hist.append(('delimit', d))
             elif t < 0.95:
                 hist.append(('endsub',))
             elif t < 0.98:
@@ -390,9 +413,9 @@ def run(ctx):
             ch = []
             left = len(data)
             while left > 0:
-                k = rng.randint(0, min(left, 7))
-                ch.append(k)
-                left -= k
+                kk = rng.randint(0, min(left, 7))
+                ch.append(kk)
+                left -= kk
             ml = len(data)
         record(kind, data, ml, cs, ch, hist, 'random')
 
